@@ -1,5 +1,6 @@
 import MLPE.DriverStore
 import MLPE.DriverEng
+import MLPE.DriverExplore
 import MLPE.DriverBuilder
 import MLPE.DriverViewer
 
@@ -29,4 +30,5 @@ def main (args : List String) : IO UInt32 := do
   | ["retry"] => loopLines stdin stdout Eng.retryLine () () ; return 0
   | ["sem"] => loopLines stdin stdout Eng.semLine () () ; return 0
   | ["eng"] => loopLines stdin stdout Eng.lsStep {} {} ; return 0
+  | ["explore"] => loopLines stdin stdout Eng.exploreLine () () ; return 0
   | _ => IO.eprintln "usage: driver store|..." ; return 2
